@@ -10,6 +10,8 @@ for d in sorted(glob.glob(os.path.join(V, 'seeded', 'C*-*'))):
         continue
     res = {}
     for f in sorted(glob.glob(os.path.join(d, 'confirm*.json'))):
+        if 'initial' in os.path.basename(f):
+            continue
         txt = open(f).read()
         try:
             j = json.loads(txt[txt.index('{'):])
